@@ -237,15 +237,23 @@ class Check(PropertyCheck):
                   "with the field every primitive write targets: ops_ids_eq_effects (the typed writes are exactly the committed "
                   "effects), putF_status, putF_refused_unchanged (atomicity on the 17 fields), putF_untouched, "
                   "putF_scalar_last_writer, putF_list_replaced (what an accepted update leaves in each field); counterexample "
-                  "theorems for the pre-fix handler. Tied to the real tornado handler by differential sessions of 1-3 PUTs: status, "
-                  "commit/rollback, backup AND the predicted content of all 17 fields are compared.")
-    level_note = ("whether a primitive setter call succeeds (str(), int(), Headers.add, text encoding, idna) is an observed input per "
-                  "case (reference replay); the VALUE a successful write leaves is symbolic in the model (effect id) and resolved by "
+                  "theorems for the pre-fix handler; the statement's invalid classes transcribed instead of observed - int() of the "
+                  "JSON value (C44.pyInt), _str_pair + Headers.add (C35.encodeSE) and the `for header in v` iteration: strPair_iff, "
+                  "headerOutcomes_all_ok_iff, failing_key_leaves_flow_unchanged, malformed_header_list_leaves_flow_unchanged, "
+                  "malformed_port_or_code_leaves_flow_unchanged; session_all_or_nothing (whole sessions of PUTs, by induction); "
+                  "put_rollback_object_level / put_rollback_objects_fresh (the roll-back on C40's heap of Headers objects: the "
+                  "snapshot is a value, in-place edits cannot disturb it). Tied to the real tornado handler by differential sessions of 1-3 PUTs: status, "
+                  "commit/rollback, backup, the predicted content of all 17 fields AND the predicted success/failure pattern "
+                  "of every port / code / headers / trailers key (driver op `conv`) are compared.")
+    level_note = ("whether a primitive setter call succeeds is PREDICTED by the model for port, code, headers and trailers (the "
+                  "classes the statement names) and still an observed input per case (reference replay) for the string fields and "
+                  "content (str() of arbitrary JSON values, idna, charset fallback); the VALUE a successful write leaves is symbolic in the model (effect id) and resolved by "
                   "the harness to the value recorded for that effect, so the model predicts WHICH write determines each field, not "
                   "the conversion itself; side effects of library setters on other fields (Host / Content-Length / Content-Type "
                   "lines rewritten by host, port and content setters) are outside the model and masked in the comparison. "
-                  "Flow.get_state/set_state are assumed to snapshot/restore faithfully (checked on every case by the before/after "
-                  "comparison, not proved). DNS flows are not exercised. LENIENT BRANCHES of the oracle: a refusal may carry any "
+                  "That set_state(get_state()) restores a message whatever in-place edits happened in between is proved on C40's "
+                  "transcription of MessageData.get_state / Message.from_state (put_rollback_object_level); for the flow-level fields "
+                  "(marked, comment, error, connections, backup) it is checked on every case by the before/after comparison only. DNS flows are not exercised. LENIENT BRANCHES of the oracle: a refusal may carry any "
                   "non-200 status; host validity is left to the implementation (the statement's 'invalid host' is whatever the setter "
                   "rejects); in the field tie Host / Content-Length / Content-Type header lines are masked (library side effects).")
     technique = "Lean 4 proof (transaction model, induction over the step list) + differential sessions against the real tornado handler"
